@@ -134,7 +134,7 @@ Definition cost_bound (m : machine) (o : op) : nat :=
   | ORemove r _ | OPop r _ | OPopIf r _ _ => 9 * lgn (reg_size m r) + 21
   | OPeek r SMax | OPeekMut r SMax _ => 1
   | OPeek _ SMin | OPeekMut _ SMin _ => 0
-  | OLen _ | OIsEmpty _ | OGet _ _ | OGetPrio _ _ | OGetMut _ _ _ | OCapacity _
+  | OLen _ | OIsEmpty _ | OGet _ _ | OGetPrio _ _ | OGetMut _ _ _ | OCapacity _ | ODebug _
   | OReserve _ _ | OTryReserve _ _ | OShrink _ | OClear _ | OIntoVec _ | OClone _ _ | OCloneFrom _ _
   | OEq _ _ | ONew _ _ | OWithCap _ _ _ | OIter _ _ _ _ | OIntoIter _ _ _ _ | ODrain _ _ _ _ => 0
   | OFromVec _ _ l | OFromIter _ _ l _ | ODeser _ _ l => 16 * length l
